@@ -12,9 +12,18 @@
 (* registered with expect_violation so that the hazard stays documented by a *)
 (* machine-found counterexample; with AnswersLate = FALSE (the drivers'       *)
 (* assumption) the same model must satisfy the invariant.                     *)
+(*                                                                           *)
+(* The same hazard from the other side: the LIBRARY gives up on a slow       *)
+(* device (a read timeout of its own).  LibraryGivesUp = "keeps": it raises  *)
+(* and keeps the connection - the device's late answer meets the next        *)
+(* operation, TLC must find the violation (this one IS inside C03: no caller *)
+(* did anything unusual; the conformance side shows it as the event Late     *)
+(* followed by a frame written before its own reply came).  "hangsup": it    *)
+(* closes the connection before raising - answers to a dead socket are lost, *)
+(* the invariant holds.  "never": the pinned library (it waits).             *)
 (***************************************************************************)
 EXTENDS Naturals, Sequences, TLC
-CONSTANTS MaxOps, AnswersLate
+CONSTANTS MaxOps, AnswersLate, LibraryGivesUp
 VARIABLES pc,        \* "idle", "waitlogin", "waitcmd"
           opn,       \* operations begun so far
           pipe,      \* the device's answers on their way to the client: <<operation, kind, session>>
@@ -42,7 +51,12 @@ Abandon == /\ pc \in {"waitlogin", "waitcmd"} /\ pc' = "idle"
            /\ owed' = IF AnswersLate THEN owed ELSE <<>>                 \* (drivers' assumption: the device never answers that request)
            /\ pipe' = IF AnswersLate THEN pipe ELSE <<>>
            /\ UNCHANGED <<opn, sent, issued, nextSess>>
-Next == Begin \/ Answer \/ ReadLogin \/ ReadAck \/ Abandon
+\* the library's own patience ends (a device that is slow, not silent: its answer is on the way or still owed)
+GiveUp == /\ LibraryGivesUp # "never" /\ pc \in {"waitlogin", "waitcmd"} /\ pc' = "idle"
+          /\ owed' = IF LibraryGivesUp = "hangsup" THEN <<>> ELSE owed      \* whatever is sent to a closed socket is lost;
+          /\ pipe' = IF LibraryGivesUp = "hangsup" THEN <<>> ELSE pipe      \* the next operation runs on a new connection
+          /\ UNCHANGED <<opn, sent, issued, nextSess>>
+Next == Begin \/ Answer \/ ReadLogin \/ ReadAck \/ Abandon \/ GiveUp
 Spec == Init /\ [][Next]_vars
 \* what C03 demands of completed operations: a command frame carries the session issued for the login of ITS operation
 SessionOfThisLogin == \A k \in 1..Len(sent) : sent[k][2] = issued[sent[k][1]]
